@@ -373,6 +373,29 @@ def run_sched(case):
         if shared:
             P.parse.initialized_dbs = set()
             del P.parse.initialized_dbs
+            if case.get("warm"):
+                # the process has used ANOTHER cache database before (unproxied: P.sqlite3 is still the real module)
+                P.sqlite3 = REAL_SQLITE
+                P.os = REAL_OS
+                warm = os.path.join(folder, "other_cache")
+                P.parse("model Warm end Warm;", model_cache_folder=Path(warm))
+                P.sqlite3 = PSqlite()
+                P.os = POs()
+        fs_gates = shared
+        import pathlib
+        real_exists, real_mkdir = pathlib.Path.exists, pathlib.Path.mkdir
+        if fs_gates:
+            # pause points at the file-system operations parse() performs outside SQL statements
+            def g_exists(self, *a, **k):
+                if CTL is not None and threading.get_ident() in CTL.calls:
+                    return gate("fs", lambda: real_exists(self, *a, **k))
+                return real_exists(self, *a, **k)
+
+            def g_mkdir(self, *a, **k):
+                if CTL is not None and threading.get_ident() in CTL.calls:
+                    return gate("fs", lambda: real_mkdir(self, *a, **k))
+                return real_mkdir(self, *a, **k)
+            pathlib.Path.exists, pathlib.Path.mkdir = g_exists, g_mkdir
         ino0 = os.stat(db).st_ino if os.path.exists(db) else None
         calls = []
         threads = []
@@ -440,6 +463,7 @@ def run_sched(case):
         for th in threads:
             th.join(5)
         trace = CTL.trace
+        pathlib.Path.exists, pathlib.Path.mkdir = real_exists, real_mkdir
         kws = [getattr(c, "kw", None) for c in calls]
         CTL = None
         P.sqlite3 = REAL_SQLITE
@@ -452,6 +476,11 @@ def run_sched(case):
         P.sqlite3 = REAL_SQLITE
         P.os = REAL_OS
         CTL = None
+        try:
+            import pathlib as _pl
+            _pl.Path.exists, _pl.Path.mkdir = real_exists, real_mkdir
+        except NameError:
+            pass
         shutil.rmtree(folder, ignore_errors=True)
 
 
